@@ -581,6 +581,7 @@ func (x *exec) runInstrs(st *State, b *ssa.BasicBlock, idx int) {
 			next := i + 1
 			x.doCall(st, cs, func(st *State, res Val) {
 				st.top().env[ins] = res
+				x.crashPoint(st, "after "+x.callDesc(ins), ins.Pos())
 				x.runInstrs(st, b, next)
 			})
 			return
@@ -594,6 +595,9 @@ func (x *exec) runInstrs(st *State, b *ssa.BasicBlock, idx int) {
 			x.doSelect(st, ins)
 		default:
 			x.step(st, in)
+			if _, isStore := in.(*ssa.Store); isStore {
+				x.crashPoint(st, "after store", in.Pos())
+			}
 		}
 		if st.dead {
 			return
@@ -724,4 +728,28 @@ func (x *exec) oblige(st *State, kind, label, detail string, goal Term, pos toke
 func (x *exec) check(st *State, kind, detail string, goal Term, pos token.Pos) {
 	x.oblige(st, kind, "", detail, goal, pos)
 	st.assume(goal)
+}
+
+// crashPoint: the crash invariant of the function under verification must hold here (a
+// process or machine crash may happen between any two operations).
+func (x *exec) crashPoint(st *State, where string, pos token.Pos) {
+	ct := x.ctx.C
+	if len(ct.CrashInv) == 0 || x.ctx.suppress > 0 || len(st.frames) != 1 || st.top().fn != x.topFn {
+		return
+	}
+	nq := 0
+	se := &specEnv{x: x, pkg: x.specPkg(ct), vars: x.topVars, st: st, cur: st, old: x.entry, nq: &nq, what: "crash_inv of " + x.ctx.Key}
+	for _, c := range ct.CrashInv {
+		x.oblige(st, "crash_inv", c.Label, where, se.evalBool(c.Expr), pos)
+	}
+}
+
+func (x *exec) callDesc(c *ssa.Call) string {
+	if f := c.Call.StaticCallee(); f != nil {
+		return f.Name()
+	}
+	if c.Call.IsInvoke() {
+		return c.Call.Method.Name()
+	}
+	return "call"
 }
